@@ -357,9 +357,7 @@ class Impl:
         for (tr, nx), (p, cells) in outs.items():
             ns = dict(state)
             for g, v in cells.items():
-                k = S.cellinfo.get(g)
-                pre = {"int": "", "flag": "f:", "optcell": "o:"}.get(k[0] if k else "", "")
-                ns[pre + S._sym(g)] = v
+                ns[S.cellsym(g)] = v
             # integer payloads: evaluate what is handed on
             ntr = []
             ints = [n[1] for n in p.note if isinstance(n, tuple) and n and n[0] == "intpayload"]
@@ -791,9 +789,7 @@ def _explore_gate(r, S, ref, root, name):
                         continue
                     ns = dict(state)
                     for g, v in newcells.items():
-                        k = Sm.cellinfo.get(g)
-                        pre = {"int": "", "flag": "f:", "optcell": "o:"}.get(k[0] if k else "", "")
-                        ns[pre + Sm._sym(g)] = v
+                        ns[Sm.cellsym(g)] = v
                     key = (tuple(sorted(ns.items())), rst2)
                     if key not in seen:
                         seen.add(key)
@@ -802,3 +798,117 @@ def _explore_gate(r, S, ref, root, name):
         if not frontier:
             break
     return steps
+
+
+# ---------------------------------------------------------------------------- amb (C03 / C11)
+def serial_first(P, E):
+    """the first key StreamController::new_observer hands out: initial value of the serial counter plus what is
+    added before the key is taken (read off the HashMap::insert key in the method's summary)"""
+    nb = None
+    for b in P.bodies.values():
+        if b.nid == SCTL + "::new_observer" and b.id not in P.absorbed:
+            nb = b
+    if nb is None:
+        raise Undecided("StreamController::new_observer not found")
+    S = Summary(P, E, nb, item_param=99, item_kind="none")
+    firsts = set()
+    for p in S.paths:
+        for n_ in p.note:
+            if isinstance(n_, tuple) and n_ and n_[0] == "mapkey":
+                v = n_[1]
+                if v[1] is None:
+                    raise Undecided("upstream key is a constant")
+                # the key is (counter at entry) + k
+                init = None
+                for g, k in S.cellinfo.items():
+                    if k and k[0] == "int" and S._sym(g) == v[1]:
+                        init = k[1]
+                if init is None or isinstance(init, tuple):
+                    raise Undecided("upstream key does not derive from the serial counter")
+                firsts.add(init + v[2])
+    if len(firsts) != 1:
+        raise Undecided("first upstream key not unique: %s" % sorted(firsts))
+    return firsts.pop()
+
+
+def amb_rule(P, E, H):
+    """amb mirrors only the first input to signal: explored for two inputs with every pair of distinct keys the
+    StreamController can hand out, every interleaving of their events up to AMB_DEPTH."""
+    r = RuleResult("AMB", "amb: the first input to signal wins; every event of the winner is mirrored, every other input is cut")
+    root = "operators::amb::Amb"
+    ts = [t for t in H.triples if t["root"] == root]
+    if len(ts) != 1:
+        r.error("AMB: expected one handler triple in %s, found %d" % (root, len(ts)))
+        return r
+    t = ts[0]
+    try:
+        first = serial_first(P, E)
+        S = {}
+        for role, kind in (("N", "item"), ("E", "error"), ("C", "none")):
+            S[role] = Summary(P, E, t["handlers"][role], item_param=3, item_kind=kind, serial_param=2)
+        cells = {}
+        for Sm in S.values():
+            for g, k in Sm.cellinfo.items():
+                if k and k[0] in ("int", "flag", "optcell"):
+                    if isinstance(k[1], tuple):
+                        raise Undecided("latch initialised from a parameter")
+                    cells[Sm.cellsym(g)] = k[1]
+        keys = [first, first + 1, first + 2]
+        steps = 0
+        reported = set()
+        for (ka, kb) in [(x, y) for x in keys for y in keys if x != y]:
+            start = (tuple(sorted(cells.items())), None)
+            seen = {start}
+            frontier = [(start, ())]
+            for depth in range(4):
+                nxt = []
+                for ((ist, win), hist) in frontier:
+                    state = dict(ist)
+                    for who, key in (("a", ka), ("b", kb)):
+                        for role in ("N", "E", "C"):
+                            Sm = S[role]
+                            sigma = dict(state)
+                            sigma["in:serial"] = key
+                            for s_ in Sm.symbols():
+                                if s_.startswith("ov:") and s_ not in sigma:
+                                    sigma[s_] = -12345      # payload of an empty Option: never read on a feasible path
+                            for s_ in Sm.symbols():
+                                if s_ not in sigma:
+                                    raise Undecided("%s handler consults `%s`, which the abstraction does not model" % (role, s_))
+                            outs = Sm.step(sigma, ALPHABET)
+                            if not outs:
+                                raise Undecided("no feasible path for %s of input %s" % (role, who))
+                            w2 = win or who
+                            mirrored = (w2 == who)
+                            want = {"N": (("emit", "item"),), "E": (("error",),), "C": (("complete",),)}[role] if mirrored else ()
+                            done_ = mirrored and role in ("E", "C")
+                            for (tr, nx), (p, newcells) in outs.items():
+                                steps += 1
+                                ntr = _norm_trace(tr)
+                                if ntr != want:
+                                    kind = "%s of %s after %s" % (role, "the winner" if mirrored else "a loser", "/".join(hist[-2:]) or "start")
+                                    if kind not in reported:
+                                        reported.add(kind)
+                                        r.violate((root, "mirroring", kind),
+                                                  "amb with upstream keys a=%d, b=%d: on %s of input %s after [%s] (winner so far: %s) the operator does %s; "
+                                                  "its definition says %s (extracted transition: guard %s)"
+                                                  % (ka, kb, {"N": "an item", "E": "an error", "C": "completion"}[role], who, ", ".join(hist) or "nothing",
+                                                     win or "none", _fmt(ntr), _fmt(want), " && ".join(_show_b(x) for x in p.pc) or "true"), body=Sm.b)
+                                    continue
+                                if done_:
+                                    continue
+                                ns = dict(state)
+                                for g, v in newcells.items():
+                                    ns[Sm.cellsym(g)] = v
+                                key2 = (tuple(sorted(ns.items())), w2)
+                                if key2 not in seen:
+                                    seen.add(key2)
+                                    nxt.append((key2, hist + ("%s.%s" % (who, role),)))
+                frontier = nxt
+                if not frontier:
+                    break
+        r.instance((root, "mirroring"), True, "first upstream key %d; %d event steps over %d key pairs, depth 4; latch cells %s"
+                   % (first, steps, len(keys) * (len(keys) - 1), sorted(cells)))
+    except Undecided as e:
+        r.error("AMB: not decidable in the abstraction: %s" % e)
+    return r
